@@ -1664,6 +1664,21 @@ def COp.keepsCapacity : COp → Bool
   | .setcap _ => false
   | _ => true
 
+theorem churnLoop_wf (D : Defects) (k : Nat) (m : Mem) (i ev : Nat) (h : WF m.cache) :
+    WF (m.churnLoop D k i ev).1.cache := by
+  induction k generalizing m i ev with
+  | zero => exact h
+  | succ k ih =>
+    unfold Mem.churnLoop
+    simp only []
+    have hi := insert_wf D ({ m with nextFid := m.nextFid + 1 } : Mem).free m.cache
+      { page := churnBase + i % 2, fid := m.nextFid, val := 0, dirty := false } h
+    split <;> (rename_i heq; rw [heq] at hi)
+    · exact hi
+    · apply ih; rw [(park_same _ _).1]; exact hi
+    · apply ih; exact hi
+    · apply ih; exact hi
+
 theorem cstep_wf (D : Defects) (m : Mem) (op : COp) (hop : op.keepsCapacity = true) (h : WF m.cache) :
     WF (m.cstep D op).1.cache := by
   cases op with
@@ -1730,6 +1745,7 @@ theorem cstep_wf (D : Defects) (m : Mem) (op : COp) (hop : op.keepsCapacity = tr
     exact empty_wf _ _
   | setcap n => cases hop
   | stat => exact h
+  | churn n => exact churnLoop_wf D n m 0 0 h
 
 theorem crun_wf (D : Defects) (m : Mem) (ops : List COp) (hops : ∀ op ∈ ops, op.keepsCapacity = true)
     (h : WF m.cache) : WF (m.crun D ops).1.cache := by
